@@ -418,8 +418,11 @@ func (c *Cache[K, V]) Close() error {
 		// workers do a final drain and exit; producers blocked on a full queue wake
 		// and return ErrCacheClosed. No queue is ever closed out from under a sender.
 		c.flush()
+		verifYield(339)
 		close(c.closeCh)
+		verifYield(341)
 		c.workers.Wait()
+		verifYield(343)
 		c.clearDirect()
 	})
 	return nil
